@@ -22,7 +22,7 @@ FLOORS = {'quick': {'span': 500, 'basis': 500, 'basis_one': 1000, 'ders': 500, '
                     'normalize': 50, 'check_reject': 50, 'hook:find_span': 50, 'hook:basis_function': 50},
           'thorough': {'span': 5000, 'basis': 5000, 'basis_one': 10000, 'ders': 5000, 'generate': 100,
                        'normalize': 500, 'check_reject': 500}}
-MANDATORY_TAGS = ['kv:tiny-range', 'large', 'generate:count<=degree', 'u:near-end', 'kv:unclamped', 'kv:endrep', 'kv:random', 'kv:range', 'u:end', 'u:start', 'u:knot_full', 'deg7', 'deg1']
+MANDATORY_TAGS = ['kv:tiny-range', 'kv:startknot', 'u:near-start', 'large', 'generate:count<=degree', 'u:near-end', 'kv:unclamped', 'kv:endrep', 'kv:random', 'kv:range', 'u:end', 'u:start', 'u:knot_full', 'deg7', 'deg1']
 
 _CTX = [None]
 
@@ -179,7 +179,7 @@ def gen_basis_case(rng, p=None, cls=None):
     p = p or rng.choice([1, 2, 3, 3, 4, 5, 6, 7])
     n = p + 1 + rng.randint(0, 8)
     cls = cls or rng.choice(['uniform', 'random', 'random', 'random', 'fullmult', 'unclamped', 'unclamped_rep', 'range',
-                             'fine', 'unclamped_endrep', 'endknot', 'unclamped-wide', 'jump'])
+                             'fine', 'unclamped_endrep', 'endknot', 'startknot', 'unclamped-wide', 'jump'])
     if large:
         # degrees and knot counts beyond the usual small ones (a binary search takes 5-6 steps, many spans are never end spans)
         p = rng.randint(6, 12)
@@ -208,6 +208,17 @@ def gen_basis_case(rng, p=None, cls=None):
             U[n - 2] = a_ + 0.5 * (b_ - a_) if p + 1 <= n - 2 else U[n - 2]
         U = sorted(U)
         extra = [('near-end', b_ - 2 * g), ('near-end', b_ - 1.5 * g), ('near-end', b_ - 0.5 * g)]
+    elif cls == 'startknot':
+        # (round 10) the mirror image: a genuine knot very close to the START of the domain, and parameters on it and just after it
+        n = max(n, p + 3)
+        U = G.knot_vector(rng, p, n, 'random', rng.choice([(0.0, 1.0), (0.0, 1.0), (2.0, 5.0), (-1.0, 1.0)]))
+        a_, b_ = U[p], U[n]
+        g = rng.choice([4e-6, 5e-7, 8e-6]) * (b_ - a_)
+        U[p + 1] = a_ + g
+        if not U[p + 1] < U[p + 2]:
+            U[p + 2] = a_ + 0.5 * (b_ - a_) if p + 2 < n else U[p + 2]
+        U = sorted(U)
+        extra = [('near-start', a_ + 0.5 * g), ('near-start', a_ + g), ('near-start', a_ + 1.2 * g), ('near-start', a_ + 2 * g)]
     elif cls == 'jump':
         # an interior knot of multiplicity degree + 1 (a valid, discontinuous knot vector), parameters on it and one ulp either side
         import math as _m
@@ -231,6 +242,8 @@ def gen_basis_case(rng, p=None, cls=None):
     else:
         U = G.knot_vector(rng, p, n, kcls, lohi, fine=fine)
     params = G.param_classes(rng, p, U, nrand=4, ulp=True) + [(t_, u_) for t_, u_ in extra if U[p] < u_ < U[n]]
+    if cls == 'startknot' and not (U[p] < U[p + 1] < U[p + 2] <= U[n]):
+        cls = 'random'
     return {'kind': 'basis', 'p': p, 'n': n, 'kv': U, 'cls': cls, 'params': [[t, u] for t, u in params], 'large': large,
             'order': rng.randint(0, p) if rng.random() < 0.7 else rng.randint(p + 1, p + 3)}
 
